@@ -83,6 +83,15 @@ func envName(prefix string, lr *gen.LeafRef) string {
 func badLiteral(r *fw.Rand, lf *gen.Leaf) (string, string) {
 	t := lf.Type
 	switch t.Kind() {
+	case reflect.Int8, reflect.Int16, reflect.Int32, reflect.Int64, reflect.Int, reflect.Uint8, reflect.Uint16, reflect.Uint32, reflect.Uint64, reflect.Uint,
+		reflect.Float32, reflect.Float64, reflect.Bool:
+		if r.Chance(12) {
+			// the variable is present and empty: the empty text is no number (a present-but-empty variable is a value, not
+			// an absent one)
+			return "", "empty-text"
+		}
+	}
+	switch t.Kind() {
 	case reflect.Int8, reflect.Int16, reflect.Int32, reflect.Int64, reflect.Int:
 		if lf.Name == "duration" {
 			return "12parsecs", "unparsable-duration"
@@ -305,13 +314,20 @@ func runC11(w *fw.Worker) {
 				continue
 			}
 			if probeLeaf == nil && r.Chance(6) {
-				if lit, cls := badLiteral(r, lf); lit != "" {
+				if lit, cls := badLiteral(r, lf); cls != "" {
 					probeLeaf, probeClass = lr, cls+":"+lf.Name
 					texts[envName(prefix, lr)] = lit
 					continue
 				}
 			}
 			v := gen.GenLeafValue(r, c, lf)
+			if lf.Type.Kind() == reflect.String && lf.Caps&gen.CapTextU == 0 && r.Chance(6) {
+				// present and empty: the leaf is set to the empty string (it is not an absent variable)
+				layer.Vals[lr] = reflect.Zero(lf.Type)
+				texts[envName(prefix, lr)] = ""
+				w.Count("string_leaves_set_by_a_present_but_empty_variable", 1)
+				continue
+			}
 			if lf.Type == reflect.TypeOf(map[string]string{}) && !unquotedMap && r.Chance(8) {
 				// unquoted key and value, the value with blanks inside: the source may refuse such text (the README asks
 				// for quotes around anything but alphanumeric values), but it may not silently set a truncated value
